@@ -63,7 +63,7 @@ CHECKS['C01'] = dict(
         "for every skeleton up to the bound (full alphabet, a deep single-name instance for stack discipline, all documented "
         "implicit-name parents and all inline parents) and for simulated abbreviations of 30-44 tokens. Every complete abbreviation "
         "is expanded by the real expand() under html/xhtml/xml x format on/off and its tag listing, read by an independent lexer, "
-        "must equal the contract's listing with implicit names resolved by the documented table. Second layer: AbbrGrammar.tla generates every abbreviation of the documented grammar over a property-specific set of syntactic fragments; AbbrConvert.tla (tokenizer, token parser and convert() transcribed from the code, TLC-checked for acceptance, tiling and tree shape) computes its node tree, which is compared with the tree of the real emmet.abbreviation.parse() on depth, name and self-closing mark (all operator sequences of up to 11 fragments, all mixes with groups and repeaters up to 6).",
+        "must equal the contract's listing with implicit names resolved by the documented table. Second layer: AbbrGrammar.tla generates every abbreviation of the documented grammar over a property-specific set of syntactic fragments; AbbrConvert.tla (tokenizer, token parser and convert() transcribed from the code, TLC-checked for acceptance, tiling and tree shape) computes its node tree and AbbrPrint.tla (implicit names, attribute merging, the HTML formatter with formatting off) its markup; the tree of the real emmet.abbreviation.parse() and the output of the real expand() (read by the tag lexer) are compared with them on depth, name and self-closing mark (all operator sequences of up to 11 fragments, all mixes with groups and repeaters up to 6).",
    note="Bounded skeletons; '>' after a group or a self-closed element and the undocumented extra parents of the implicit-name table "
         "are outside the generated grammar. Trusted: TLC, the tag lexer harness/project_html.py.",
    technique="TLA+ spec (stack machine = depth contract by TLC; transcription of tokenizer/parser/convert) + spec->code replay of every generated abbreviation",
@@ -75,7 +75,7 @@ CHECKS['C02'] = dict(
         "EndCopy with the repeat budget). TLC checks: unlimited budget = stack-free unrolling with Counter(i,N,base,rev) of the nearest "
         "repeated item; any budget = functional contract threading completed copies in document order; guard = limit - completed; no "
         "second or later copy begins once the limit is reached; every written element at least once; padding width. Every terminal "
-        "state (abbreviation, maxRepeat) is replayed through expand() and compared on copies, nesting and printed counters. Second layer: AbbrGrammar.tla generates every abbreviation of the documented grammar over a property-specific set of syntactic fragments; AbbrConvert.tla (tokenizer, token parser and convert() transcribed from the code, TLC-checked for acceptance, tiling and tree shape) computes its node tree, which is compared with the tree of the real emmet.abbreviation.parse() on names, text and attribute values under maxRepeat none / 3 / 1 (forms $, $$@3, $@-, $$@-5, $@^, $@^^, repeaters *1 *2 *3 *).",
+        "state (abbreviation, maxRepeat) is replayed through expand() and compared on copies, nesting and printed counters. Second layer: AbbrGrammar.tla generates every abbreviation of the documented grammar over a property-specific set of syntactic fragments; AbbrConvert.tla (tokenizer, token parser and convert() transcribed from the code, TLC-checked for acceptance, tiling and tree shape) computes its node tree and AbbrPrint.tla (implicit names, attribute merging, the HTML formatter with formatting off) its markup; the tree of the real emmet.abbreviation.parse() and the output of the real expand() (read by the tag lexer) are compared with them on names, text and attribute values under maxRepeat none / 3 / 1 (forms $, $$@3, $@-, $$@-5, $@^, $@^^, repeaters *1 *2 *3 *).",
    note="Bounded (tokens, nesting, N<=4, limits {1,2,3,5,8}); '@-' values under a truncating limit are not judged (statement silent). "
         "Trusted: TLC, tag lexer.",
    technique="TLA+ step machine = contracts (TLC) + spec->code replay of every terminal state",
@@ -88,7 +88,7 @@ CHECKS['C03'] = dict(
         "(position of first mention, class values joined in written order, last value - first under reverseAttributes), that no "
         "name is emitted twice, and computes for eight option rows (html/xml/jsx/vue x quotes x case x compactBoolean x "
         "selfClosingStyle) the attribute list the printer must emit. Every vector is expanded by the real code under the rows and the "
-        "printed tag's (name, quote, value) list read by the independent lexer must be equal. Second layer: AbbrGrammar.tla generates every abbreviation of the documented grammar over a property-specific set of syntactic fragments; AbbrConvert.tla (tokenizer, token parser and convert() transcribed from the code, TLC-checked for acceptance, tiling and tree shape) computes its node tree, which is compared with the tree of the real emmet.abbreviation.parse() on the attribute lists (name, value, value type, boolean and implied marks) of every element.",
+        "printed tag's (name, quote, value) list read by the independent lexer must be equal. Second layer: AbbrGrammar.tla generates every abbreviation of the documented grammar over a property-specific set of syntactic fragments; AbbrConvert.tla (tokenizer, token parser and convert() transcribed from the code, TLC-checked for acceptance, tiling and tree shape) computes its node tree and AbbrPrint.tla (implicit names, attribute merging, the HTML formatter with formatting off) its markup; the tree of the real emmet.abbreviation.parse() and the output of the real expand() (read by the tag lexer) are compared with them on the attribute lists (name, value, value type, boolean and implied marks) of every element.",
    note="Statement-silent mention sequences (flag computed by the spec) are generated but not judged. Snippet-provided attributes "
         "are covered by C14. Trusted: TLC, tag lexer.",
    technique="TLA+ merge machine = contract (TLC) + spec->code replay under option rows",
@@ -103,7 +103,7 @@ CHECKS['C04'] = dict(
         "AbbrWrap.tla: every list of up to 3 (simulated 6) wrap lines over 17 atoms (blank, padded, lines that look like syntax or "
         "numbering, non-ASCII, backslash) x 15 templates (implicit repeater on elements and groups, $# in attribute and text, text "
         "already present, numbering, no repeater); TLC checks the converter loop with its `inserted` flag against a loop-free "
-        "contract; each vector is replayed through expand(abbr, {'text': ...}) (list and, without repeater, string). Second layer: AbbrGrammar.tla generates every abbreviation of the documented grammar over a property-specific set of syntactic fragments; AbbrConvert.tla (tokenizer, token parser and convert() transcribed from the code, TLC-checked for acceptance, tiling and tree shape) computes its node tree, which is compared with the tree of the real emmet.abbreviation.parse() on the text of every element (escapes, nested braces, operators inside text, fields, $# and $ inside text).",
+        "contract; each vector is replayed through expand(abbr, {'text': ...}) (list and, without repeater, string). Second layer: AbbrGrammar.tla generates every abbreviation of the documented grammar over a property-specific set of syntactic fragments; AbbrConvert.tla (tokenizer, token parser and convert() transcribed from the code, TLC-checked for acceptance, tiling and tree shape) computes its node tree and AbbrPrint.tla (implicit names, attribute merging, the HTML formatter with formatting off) its markup; the tree of the real emmet.abbreviation.parse() and the output of the real expand() (read by the tag lexer) are compared with them on the text of every element (escapes, nested braces, operators inside text, fields, $# and $ inside text).",
    note="Unescaped $ in payloads belongs to C02/C13; '<' and double quotes in lines are not generated (lexer limits). Multi-line "
         "insertions are compared as trimmed line lists. Trusted: TLC, tag lexer.",
    technique="TLA+ machine = contract (TLC) + spec->code replay at every text position / template",
